@@ -1133,3 +1133,67 @@ func VerifH10s() {
 	vAssert("wire-wellformed", vWireOK(w.conn.out))
 	vReach("control-messages-longer-than-ten-thousand-bytes")
 }
+
+// ---------------------------------------------------------------------------
+// H18q — a text handed to a callback outlives the statement it defined (C18):
+// Parse of a named statement whose query is ~3000 bytes (the parse callback
+// keeps the string it was given), Close of that statement (or of another, or no
+// Close at all — the solver's choice), Sync, then a simple Query of ~2000 bytes
+// that no longer fits into what is left of the first 4 KiB granule, and one
+// more of ~3000 bytes. The kept text is still the text the client sent.
+// ---------------------------------------------------------------------------
+func VerifH18q() {
+	n1 := vParam("FIRST", 3000)
+	q1 := make([]byte, n1)
+	for i := range q1 {
+		q1[i] = 'a'
+	}
+	q1[0], q1[n1-1] = nondetByte(), nondetByte()
+	vAssume(vAnd(q1[0] > ' ', q1[0] < 0x7f))
+	vAssume(q1[n1-1] != 0)
+	var kept string
+	var copyOf []byte
+	parse := func(ctx context.Context, query string) (PreparedStatements, error) {
+		if kept == "" {
+			kept = query
+			copyOf = append([]byte{}, query...)
+		}
+		fn := func(ctx context.Context, dw DataWriter, params []Parameter) error { return dw.Complete("T") }
+		return Prepared(NewStatement(fn)), nil
+	}
+	srv, err := NewServer(parse)
+	vAssert("newserver-ok", err == nil)
+	big := func(n int, fill byte) []byte {
+		b := make([]byte, n)
+		for i := range b {
+			b[i] = fill
+		}
+		return b
+	}
+	input := vMsgBytes('P', vCat(vCStr([]byte("s")), vCStr(q1), vU16(0)))
+	steps := 1
+	switch vChoose(3) {
+	case 0:
+		input = vCat(input, vMsgBytes('C', vCat([]byte{'S'}, vCStr([]byte("s")))))
+		steps++
+		vReach("the-statement-is-closed-before-the-later-traffic")
+	case 1:
+		input = vCat(input, vMsgBytes('C', vCat([]byte{'S'}, vCStr([]byte("other")))))
+		steps++
+	}
+	input = vCat(input, vMsgBytes('S', nil),
+		vMsgBytes('Q', vCStr(big(vParam("SECOND", 2000), 'x'))),
+		vMsgBytes('Q', vCStr(big(n1, 'y'))))
+	steps += 3
+	w := &vWorld{srv: srv}
+	w.conn = vNewConn(input)
+	w.ses, w.rd, w.wr = vSession(srv, w.conn)
+	w.ctx = vCtx(srv)
+	for i := 0; i < steps; i++ {
+		_, e := w.step()
+		vAssert("connection-stays-up", e == nil)
+	}
+	vAssert("parse-callback-ran", copyOf != nil)
+	vAssert("query-text-kept-by-the-parse-callback-unchanged-by-later-traffic", vEqStr(kept, string(copyOf)))
+	vReach("later-messages-beyond-the-first-granule")
+}
